@@ -1,3 +1,10 @@
 #!/bin/sh
-# offline build of the framework tools (filled in as tools are added)
-exit 0
+# Offline build of the framework's own tools into /verif/.cache (nothing is fetched).
+set -e
+cd "$(dirname "$0")"
+export CARGO_NET_OFFLINE=true
+mkdir -p .cache
+(cd tools/vx && CARGO_TARGET_DIR=../../.cache/vx-target cargo build --release --offline --quiet)
+cp /repo/Cargo.lock replay/Cargo.lock 2>/dev/null || true
+(cd replay && CARGO_TARGET_DIR=../.cache/replay-target cargo build --offline --quiet)
+echo "setup ok"
